@@ -15,7 +15,7 @@
 //   after request   full_close | full_rst | silence
 //   response cut    resp_close[:cl|chunked]@pos | resp_rst..@pos | resp_silence..@pos   (first n response bytes, then ..)
 //   malformed       bad:<cl_te|cl_conflict|cl_nonnum|obsfold|badversion|badstatus|nocolon|chunk_size|chunk_crlf>
-//   success         ok[:cl|chunked] | ok_connclose[:mixed|list] | ok_surplus[:cl|chunked] | ok_closedelim | ok_http10 | ok_http10_ka |
+//   success         ok[:cl|chunked] | ok_connclose[:mixed|list] | ok_surplus[:cl|chunked|204] | ok_closedelim | ok_http10 | ok_http10_ka |
 //                   ok_then_fin | ok_1xx | ok_500 | ok_204 | ok_split[:cl|chunked]@pos
 //   pos = a class (request: peek first line hdr last; response: status hdr hdrend body last) or #<byte offset>
 // A step "stale" is a marker of the model (an attempt the server cannot see); the driver skips it.
@@ -25,7 +25,8 @@
 // an "effect" AFTER it was observed (request bytes), so that the log order respects causality.
 //   Begin{x,reuse,ct,rt,conc}  Call{r,m,b}  Ret{r,res,st,ms}  End{}
 //   CConn{c,r,mode}            the client called connect() for the server port (mode ok|refused|ctimeout), c = new id
-//   SReq{c,r,n,full}           the server saw n >= 1 bytes of a request on connection c; r = logical request
+//   SReq{c,r,n,full[,pre]}     the server saw n >= 1 bytes of a request on connection c; r = logical request
+//                              (pre: the bytes were already pending when c was tainted - not a re-use)
 //                              (X-Req tag in the path if the request line arrived, else the opener of a fresh connection,
 //                              else 0); full = the complete request arrived
 //   STaint{c,why,r}            the server is about to do something after which c must never carry another request:
@@ -68,6 +69,13 @@ template <PerformFn F> struct Rob
 };
 PerformFn performFn();
 template struct Rob<&HttpClient::performRequest>;
+using TransportMem = std::shared_ptr<iora::network::Transport> HttpClient::*;
+template <TransportMem M> struct RobT
+{
+  friend TransportMem transportMem() { return M; }
+};
+TransportMem transportMem();
+template struct RobT<&HttpClient::_transport>;
 } // namespace rob
 
 // ------------------------------------------------------------------ script
@@ -144,6 +152,13 @@ static CaseSpec parseCase(const std::string &line)
 
 // ------------------------------------------------------------------ process-wide state of one execution (child process)
 static vf::Trace g_trace;
+static double g_t0 = 0;
+static vf::Ev ev(const char *name) // every event carries t = ms since Begin (a debugging aid, never read by the oracle)
+{
+  vf::Ev e(name);
+  e.i("t", (long long)((vf::nowSec() - g_t0) * 1000));
+  return e;
+}
 static std::mutex g_mx; // protects the tables below (I/O thread in connect()/send(), server thread, caller threads)
 static CaseSpec g_case;
 static std::atomic<bool> g_on{false};
@@ -230,7 +245,7 @@ extern "C" int connect(int fd, const struct sockaddr *addr, socklen_t len)
         g_sendFaults.erase(fd);
     }
     // cause before effect: the connection attempt is logged before the SYN leaves
-    g_trace.add(vf::Ev("CConn").i("c", cid).i("r", r).str("mode", mode == 0 ? "ok" : mode == 1 ? "refused" : "ctimeout"));
+    g_trace.add(ev("CConn").i("c", cid).i("r", r).str("mode", mode == 0 ? "ok" : mode == 1 ? "refused" : "ctimeout"));
   }
   if (mode == 1) a.sin_port = htons(g_deadPort);
   if (mode == 2) a.sin_port = htons(g_bhPort);
@@ -303,7 +318,8 @@ static Built buildResponse(const std::string &kind, const std::string &variantIn
   bool chunked = variant == "chunked";
   if (kind == "ok_http10" || kind == "ok_http10_ka") status = "HTTP/1.0 200 OK";
   if (kind == "ok_500") status = "HTTP/1.1 500 Internal Server Error";
-  if (kind == "ok_204")
+  bool is204 = kind == "ok_204" || (kind == "ok_surplus" && variantIn == "204");
+  if (is204)
   {
     status = "HTTP/1.1 204 No Content";
     body = "";
@@ -315,7 +331,7 @@ static Built buildResponse(const std::string &kind, const std::string &variantIn
   std::string wireBody;
   if (kind == "ok_closedelim")
     wireBody = body; // neither Content-Length nor Transfer-Encoding: the body ends when the server half-closes
-  else if (kind == "ok_204")
+  else if (is204)
     wireBody = "";
   else if (kind == "bad")
   {
@@ -430,6 +446,7 @@ struct SConn
   bool tainted = false;
   bool closed = false;
   bool halfClosed = false; // we sent FIN (close-delimited body) but keep reading
+  bool preBytes = false;   // request bytes were already pending when the connection was tainted
 };
 
 static std::atomic<bool> g_stop{false};
@@ -497,7 +514,21 @@ static size_t fullLen(const std::string &s)
 static void taint(SConn &c, const char *why, int r)
 {
   c.tainted = true;
-  g_trace.add(vf::Ev("STaint").i("c", c.cid).str("why", why).i("r", r));
+  // bytes that are already here were sent BEFORE the taint: the request they belong to is not a re-use (only possible
+  // when two exchanges overlap on one connection, i.e. without the lease)
+  char t;
+  if (!c.in.empty() || recv(c.fd, &t, 1, MSG_PEEK | MSG_DONTWAIT) > 0) c.preBytes = true;
+  g_trace.add(ev("STaint").i("c", c.cid).str("why", why).i("r", r));
+}
+
+static void logReq(SConn &c, int r, long long n, bool full, long long cut = -1)
+{
+  vf::Ev e = ev("SReq");
+  e.i("c", c.cid).i("r", r).i("n", n).b("full", full);
+  if (cut >= 0) e.i("cut", cut);
+  if (c.preBytes) e.b("pre", true);
+  c.preBytes = false;
+  g_trace.add(e);
 }
 
 static void checkLate(SConn &c, int r)
@@ -507,7 +538,7 @@ static void checkLate(SConn &c, int r)
     std::lock_guard<std::mutex> g(g_mx);
     mark = g_mark.count(r) ? g_mark[r] : g_markAny;
   }
-  if (vf::nowSec() - mark > g_case.rt / 2000.0) g_trace.add(vf::Ev("SLate").i("c", c.cid));
+  if (vf::nowSec() - mark > g_case.rt / 2000.0) g_trace.add(ev("SLate").i("c", c.cid));
 }
 
 static void selectStep(SConn &c, int r)
@@ -626,7 +657,7 @@ static void onReadable(SConn &c)
     {
       int r = tagOf(c.in);
       if (r == 0 && c.first) r = c.openedBy;
-      g_trace.add(vf::Ev("SReq").i("c", c.cid).i("r", r).i("n", (long long)c.in.size()).b("full", false));
+      logReq(c, r, (long long)c.in.size(), false);
     }
     hardClose(c, false);
     return;
@@ -658,7 +689,7 @@ static void onReadable(SConn &c)
     }
     int rr = tagOf(seen);
     if (rr == 0 && c.first) rr = c.openedBy;
-    g_trace.add(vf::Ev("SReq").i("c", c.cid).i("r", rr).i("n", (long long)seen.size()).b("full", false).i("cut", (long long)n));
+    logReq(c, rr, (long long)seen.size(), false, (long long)n);
     hardClose(c, k == "req_rst");
     return;
   }
@@ -674,8 +705,8 @@ static void onReadable(SConn &c)
     c.in.erase(0, fl);
     int rr = tagOf(req);
     if (!c.haveStep) selectStep(c, rr);
-    g_trace.add(vf::Ev("SReq").i("c", c.cid).i("r", rr).i("n", (long long)fl).b("full", true));
-    if (!c.in.empty()) g_trace.add(vf::Ev("SOverlap").i("c", c.cid));
+    logReq(c, rr, (long long)fl, true);
+    if (!c.in.empty()) g_trace.add(ev("SOverlap").i("c", c.cid));
     if (c.halfClosed)
     {
       c.haveStep = false;
@@ -688,7 +719,7 @@ static void onReadable(SConn &c)
       // concurrent callers: give an unleased second caller time to put its request on the same connection
       usleep(15000);
       char t;
-      if (recv(c.fd, &t, 1, MSG_PEEK | MSG_DONTWAIT) > 0) g_trace.add(vf::Ev("SOverlap").i("c", c.cid));
+      if (recv(c.fd, &t, 1, MSG_PEEK | MSG_DONTWAIT) > 0) g_trace.add(ev("SOverlap").i("c", c.cid));
     }
     respond(c, rr, methodOf(req));
     c.haveStep = false;
@@ -798,7 +829,7 @@ static void doRequest(HttpClient &client, int r)
     g_mark[r] = now;
     g_markAny = now;
   }
-  g_trace.add(vf::Ev("Call").i("r", r).str("m", rq.method).i("b", rq.budget));
+  g_trace.add(ev("Call").i("r", r).str("m", rq.method).i("b", rq.budget));
   std::string url = "http://127.0.0.1:" + std::to_string(g_serverPort) + "/r" + std::to_string(r);
   std::map<std::string, std::string> hdr{{"X-Req", std::to_string(r)}};
   std::string body = hasBody(rq.method) ? "payload" : "";
@@ -830,7 +861,29 @@ static void doRequest(HttpClient &client, int r)
   }
   double ms = (vf::nowSec() - t0) * 1000.0;
   g_inCall[r].store(0);
-  g_trace.add(vf::Ev("Ret").i("r", r).str("res", res).i("st", status).i("ms", (long long)ms));
+  g_trace.add(ev("Ret").i("r", r).str("res", res).i("st", status).i("ms", (long long)ms));
+}
+
+// Quiescence barrier between logical requests.  connectSync gives up after its timeout even when the engine's I/O thread
+// has not executed the Connect command yet (a loaded machine); that connect() call then happens later.  The engine
+// executes commands in FIFO order on one thread, so once a sentinel connectSync (to a dead port, not the scripted
+// server's) has completed, every connect() issued by the logical request that just returned has been executed - and was
+// therefore attributed to that request by the interposed connect().
+static void barrier(HttpClient &client)
+{
+  auto tr = client.*rob::transportMem();
+  if (!tr) return;
+  for (int i = 0; i < 40; ++i)
+  {
+    auto res = tr->connectSync("127.0.0.1", (std::uint16_t)g_deadPort, iora::network::TlsMode::None,
+                               std::chrono::milliseconds(1000));
+    if (res.isOk())
+    {
+      tr->close(res.value());
+      return;
+    }
+    if (res.error().code != iora::network::TransportError::Timeout) return;
+  }
 }
 
 static std::string runCase(const CaseSpec &cs)
@@ -842,7 +895,8 @@ static std::string runCase(const CaseSpec &cs)
   (void)deadFd;
   if (g_listenFd < 0 || g_serverPort == 0) return "{\"e\":\"HarnessError\",\"what\":\"listen\"}\n";
   fcntl(g_listenFd, F_SETFL, fcntl(g_listenFd, F_GETFL, 0) | O_NONBLOCK);
-  g_trace.add(vf::Ev("Begin").str("x", cs.id).i("reuse", cs.reuse).i("ct", cs.ct).i("rt", cs.rt).i("conc", cs.conc));
+  g_t0 = vf::nowSec();
+  g_trace.add(ev("Begin").str("x", cs.id).i("reuse", cs.reuse).i("ct", cs.ct).i("rt", cs.rt).i("conc", cs.conc));
   for (int i = 0; i < 8; ++i) g_inCall[i].store(0);
   g_on.store(true);
   std::thread *serverP = new std::thread(serverLoop);
@@ -870,6 +924,7 @@ static std::string runCase(const CaseSpec &cs)
           {
             g_curReq.store(r);
             doRequest(client, r);
+            barrier(client);
             // let a FIN the server sent after its response (ok_then_fin) reach the client's engine
             std::this_thread::sleep_for(std::chrono::milliseconds(40));
           }
@@ -893,7 +948,7 @@ static std::string runCase(const CaseSpec &cs)
     for (int r = 1; r <= (int)cs.reqs.size() && r < 8; ++r)
       if (g_inCall[r].load() && now - g_callStart[r].load() > hardBound(cs.reqs[r - 1]) + 8.0)
       {
-        g_trace.add(vf::Ev("Ret").i("r", r).str("res", "hung").i("st", 0).i("ms", (long long)((now - g_callStart[r].load()) * 1000)));
+        g_trace.add(ev("Ret").i("r", r).str("res", "hung").i("st", 0).i("ms", (long long)((now - g_callStart[r].load()) * 1000)));
         g_inCall[r].store(0);
         hung = true;
       }
@@ -902,7 +957,7 @@ static std::string runCase(const CaseSpec &cs)
   if (hung)
   {
     worker.detach();
-    g_trace.add(vf::Ev("End").b("hung", true));
+    g_trace.add(ev("End").b("hung", true));
     return g_trace.text();
   }
   // the client destructor (transport stop) runs on the worker; do not let a stuck teardown hide the recorded facts
@@ -912,7 +967,7 @@ static std::string runCase(const CaseSpec &cs)
     worker.join();
   else
     worker.detach();
-  g_trace.add(vf::Ev("End").b("hung", false));
+  g_trace.add(ev("End").b("hung", false));
   return g_trace.text();
 }
 
